@@ -95,6 +95,9 @@ def rejection_sampling(ctx, world, ev):
     ctx.require(isinstance(f, FuncV), "anchor vanished: util.unbiased_randrange")
     site = (ut.relpath, f.node.lineno, "unbiased_randrange")
     loops = [n for n in ast.walk(f.node) if isinstance(n, (ast.While, ast.For))]
+    if len(loops) == 0 and any(isinstance(n, ast.Call) and isinstance(n.func, ast.Name) and n.func.id == "next" for n in ast.walk(f.node)):
+        ctx.require(False, "unbiased_randrange has no loop of its own: the retry loop is hidden in a lazily consumed generator "
+                    "(next(...) over a candidate stream), which is outside the analysable subset - no verdict")
     def unbounded(lp):
         if isinstance(lp, ast.While):
             return isinstance(lp.test, ast.Constant) and lp.test.value in (True, 1)
@@ -117,9 +120,11 @@ def rejection_sampling(ctx, world, ev):
     loop = loops[0]
     # loop-carried state: a name assigned in the body must not be read in the body before its assignment
     assigned, carried = set(), []
+    comp_vars = {x.id for st in loop.body for c in ast.walk(st) if isinstance(c, ast.comprehension)
+                 for x in ast.walk(c.target) if isinstance(x, ast.Name)}
     for st in loop.body:
         for n in ast.walk(st):
-            if isinstance(n, ast.Name) and isinstance(n.ctx, ast.Load) and n.id not in assigned:
+            if isinstance(n, ast.Name) and isinstance(n.ctx, ast.Load) and n.id not in assigned and n.id not in comp_vars:
                 if any(isinstance(m, ast.Name) and isinstance(m.ctx, ast.Store) and m.id == n.id for s2 in loop.body for m in ast.walk(s2)):
                     carried.append(n.id)
         for n in ast.walk(st):
@@ -204,6 +209,9 @@ def rejection_sampling(ctx, world, ev):
                             ok3 = True
         if not ok3:
             why3 = show(cand, maxdepth=6)
+            lazy = [x for x in subterms(cand) if isinstance(x, App) and (x.f.startswith("generator:") or x.f in ("iter-unknown", "maplam", "filterlam", "zip", "iter-elem"))]
+            ctx.require(not lazy, "the candidate is assembled from a lazily consumed stream (%s): outside the analysable subset - no verdict"
+                        % show(lazy[0], maxdepth=3) if lazy else "")
         ctx.ob("R3", "candidate form", ok3,
                ("candidate = big-endian integer of [mask & d[0]] + d[1:] for one draw d = entropy_f(num_bytes): mask on the most significant byte"
                 if mask_kind == "byte" else "candidate = big-endian integer of one draw d = entropy_f(num_bytes), reduced to its low bits (%s)" % mask_kind) if ok3 else
@@ -222,8 +230,8 @@ def rejection_sampling(ctx, world, ev):
         from ..terms import subst
         blt = App("bit_length", (maxval,))
         sym_n = nb in nbytes_forms
-        nz = (leftover, True) in conds
-        z = (leftover, False) in conds or (mk_app("Eq", (leftover, Const(0))), True) in conds
+        nz = (leftover, True) in conds or (mk_app("NotEq", (leftover, Const(0))), True) in conds or (mk_app("Eq", (leftover, Const(0))), False) in conds
+        z = (leftover, False) in conds or (mk_app("Eq", (leftover, Const(0))), True) in conds or (mk_app("NotEq", (leftover, Const(0))), False) in conds
         sym_mask = mask_kind == "byte" and (nz and mask == mk_app("Sub", (mk_app("LShift", (Const(1), leftover)), Const(1)))) or (mask_kind == "byte" and z and mask == Const(0xff))
         blconds = [(t, p) for (t, p) in conds if any(x == blt for x in subterms(t))]
         bad_n, bad_m, unfold = [], [], []
@@ -287,11 +295,18 @@ def _fold(t):
 def random_scalars(ctx, world, ev):
     st, g, syms = gm.symbolic_int_group(world, ev)
     ent = Sym("entropy_f")
-    outs = ev.run_method(g, "random_scalar", [ent], st=st.fork())
-    rets = session.rets(outs)
     ut = world.module("spake2.util")
     ur = ev.module_global(ut, "unbiased_randrange", None)
+    e3 = Ev(world)
+    e3.import_all()
+    e3.next_oid = ev.next_oid
+    e3.policy.force_opaque.add(ur.qual)        # the sampler itself is R0-R5's business, whatever its shape
+    outs = e3.run_method(g, "random_scalar", [ent], st=st.fork())
+    rets = session.rets(outs)
     want = App("fn:" + ur.qual, (Const(0), syms["q"], ent))
+    for o in rets:                               # optional extra arguments (e.g. precomputed masks) are R's business too
+        if isinstance(o.value, App) and o.value.f == want.f and o.value.args[:3] == want.args:
+            want = o.value
     ok = len(outs) == 1 and len(rets) == 1 and rets[0].value == want
     ctx.ob("N2", g.cls.name + ".random_scalar", ok, "random_scalar(f) = unbiased_randrange(0, q, f)" if ok else
            "integer-group random_scalar is %s, expected unbiased_randrange(0, q, entropy_f)" % [show(o.value, maxdepth=5) for o in rets],
